@@ -71,6 +71,12 @@ def c08_oracle(case, obs):
                 for i, m in st.items():
                     if pair(m["src"], m["dst"]) == pair(a, b) and m["state"] == "held" and i not in listed:
                         out.append(("links() at step %d does not show held message %d on link (%d,%d)" % (ev[2], i, a, b), None))
+                    # released / manually delivered since the last tick and no send on the link since: rescheduled
+                    # for "now" but still in flight (nobody received it) until the next tick
+                    if (pair(m["src"], m["dst"]) == pair(a, b) and m["state"] == "flight" and len(ev) > 3
+                            and m.get("resched") is not None and m.get("resched") == ev[3] and i not in listed):
+                        out.append(("links() at step %d does not show message %d on link (%d,%d) which was released / manually "
+                                    "delivered in this step and has not been handed to its destination yet" % (ev[2], i, a, b), None))
                 for i in listed:
                     if i not in st or st[i]["state"] in ("received", "dropped"):
                         out.append(("links() at step %d shows message %d which is not in flight" % (ev[2], i), None))
